@@ -16,7 +16,7 @@ STD_DENY = ('std::random_device', 'std::rand', 'std::srand', 'std::chrono::', 's
             'std::shuffle', 'std::random_shuffle', 'std::system', 'std::signal', 'std::atexit')
 C_ALLOW = ('strtol', 'strtoll', 'strtoul', 'strlen', 'memcpy', 'memset', 'memmove', 'memcmp', 'malloc', 'realloc', 'free', 'calloc', 'fread', 'getc', 'ferror',
            'clearerr', 'fprintf', 'exit', 'fwrite', 'fileno', 'isatty', 'atoi', 'abs', '__errno_location', 'strcmp', 'strncmp', 'strchr', 'putc', 'fputc', 'fputs',
-           'abort', 'operator new', 'operator delete', 'operator new[]', 'operator delete[]', '__builtin_expect', '__builtin_unreachable', 'snprintf', 'sprintf')
+           'isalnum', 'isalpha', 'isdigit', 'isspace', 'isupper', 'islower', 'toupper', 'tolower', 'isxdigit', 'ispunct', 'abort', 'operator new', 'operator delete', 'operator new[]', 'operator delete[]', '__builtin_expect', '__builtin_unreachable', 'snprintf', 'sprintf')
 C_DENY = ('rand', 'srand', 'time', 'clock', 'getenv', 'setlocale', 'strtok', 'localtime', 'gmtime', 'asctime', 'tmpnam', 'random', 'srandom', 'drand48', 'gettimeofday',
           'clock_gettime', 'getpid', 'system', 'signal', 'setjmp', 'longjmp', 'putenv', 'setenv', 'ctime', 'mktemp', 'tmpfile', 'readdir')
 
